@@ -100,7 +100,7 @@ def master_case(ctx, idx, rng):
                     man.update(memory='%dM' % demand[0], cpu='%d%%' % demand[1], disk='%dM' % demand[2])
             lease = mdrv.own_secs(man.get('lease', '0s'))
             spec = dict(name='probe', demand=demand, traits=mdrv.trait_bits(man.get('traits')) | atraits, lease=lease,
-                        affinity=man['affinity'], limits=dict(man.get('affinity_limits', {})), group=None,
+                        affinity=mdrv.aff_of(man), limits=dict(man.get('affinity_limits', {})), group=None,
                         alloc=akey)
             if app_id != 'probe.p':
                 ctx.count('master_probe_into_existing_allocation')
